@@ -20,6 +20,11 @@ CHECKS = {
   text="Every digest returned by sig_hash.legacy / segwit_v0 / taproot (direct and with PrecomputedTxData), sig_hash.from_tx for every previous-output type, psbt.ecdsa_sig_hash / taproot_sig_hash and the PsbtView equivalents is compared byte for byte at run time with the reference transcription on generated (transaction, index, script code, hash type, amount, annex, extension) tuples; inputs the BIPs declare an error must be refused. Held = no difference on the executions in evidence.",
   note="Trusted base: rv/ref/core.py sighash transcriptions, re-validated on every run against sighash.json (500), the BIP341 wallet vectors and Core's tx_valid/script_tests witness vectors; failure => INCONCLUSIVE.",
   ref="DESIGN.md section 3 C09"),
+ "C04": dict(
+  technique="runtime monitoring: differential monitor between the two arithmetic arms (each registered call executed with the bindings serving and switched off, outcomes canonicalised), dispatch-predicate hook recording which arm served",
+  text="Every registered dual-path entry point (multiplications, SEC conversions, ECDSA/BIP340 sign/verify/recover/Signer, BMS, nonce commitment, BIP32 private/public derivation and tweaks, taproot tweaks and control-block check, ECDH, ElligatorSwift, MuSig2 partial verification, silent-payment sender and scanners, engine signature wrappers and whole-input verdicts) is run at run time on valid and hostile inputs once per arm with rebuilt arguments; returned bytes/booleans and exception classes must be equal, and the bindings must not serve while switched off. A case counts as non-trivial only when the dispatch hook saw the bindings serve it.",
+  note="Trusted base: none beyond the comparison itself (the oracle is the other arm); needs the btclib_secp256k1 bindings installed, otherwise INCONCLUSIVE. Private helpers are driven within their documented preconditions (engine.dsa_verify is not handed a high s, fix_signature normalising it upstream; _mult_sec_var gets valid SEC octets).",
+  ref="DESIGN.md section 3 C04"),
 }
 
 def main():
